@@ -1494,8 +1494,11 @@ impl<'a, 'b> InternalDelphiLogicalLineParser<'a, 'b> {
         }
 
         let paren_level = self.paren_level;
-        while !(matches!(self.get_token_type::<-1>(), Some(TT::Op(OK::RParen)))
-            && paren_level >= self.paren_level)
+        let start_index = self.pass_index;
+        // The opening parenthesis is always consumed, even directly after a `)` (e.g. `Foo()()`)
+        while self.pass_index == start_index
+            || !(matches!(self.get_token_type::<-1>(), Some(TT::Op(OK::RParen)))
+                && paren_level >= self.paren_level)
         {
             match self.get_current_token_type() {
                 Some(TT::Op(OK::Semicolon | OK::LParen)) => fix_next_eq(self),
